@@ -271,6 +271,48 @@ func genC01(g *Rng, tier string, emit func(Op)) {
 			}
 		}
 	}
+	// the same range demands hold for proofs that carry a non-revocation part (a separate path in
+	// the verifier): responses shifted by multiples of the group order keep every equation
+	{
+		kp := fixedKey("k1024a", true)
+		emit(declKey(kp))
+		pk, order := kp.pk, kp.sk.Order
+		for r := 0; r < 2; r++ {
+			rs := revSetup(kp)
+			cred := issueCred(kp, randSecret(g), []*big.Int{g.bits(200), rs.witness.E, g.bits(90)})
+			cred.NonRevocationWitness = rs.witness
+			ctx, nonce := g.bits(256), g.bits(int(pk.Params.Lstatzk))
+			var proof *gabi.ProofD
+			var tree T
+			for try := 0; ; try++ {
+				p, err := cred.CreateDisclosureProof([]int{3}, nil, true, ctx, nonce)
+				if err != nil {
+					panic(err)
+				}
+				proof, tree = p, proofDTree(p)
+				if !ambiguous(tree) || try > 5 {
+					break // (the known ambiguity of C11 is not this property's concern)
+				}
+			}
+			emit(verifyDOp(kp.id, tree, ctx, nonce, false, "nonrev-honest", "accept").with("sigviews", sigViews(tree, []*KeyPair{kp})))
+			for _, j := range sortedKeys(proof.AResponses) {
+				if j == 2 {
+					continue // the revocation attribute's response is also bound by the non-revocation part
+				}
+				t2 := cloneTree(tree).(T)
+				t2["a_responses"].(T)[strconv.Itoa(j)] = I(new(big.Int).Add(proof.AResponses[j], order))
+				emit(verifyDOp(kp.id, t2, ctx, nonce, false, "nonrev-shift-response", "reject").with("sigviews", sigViews(t2, []*KeyPair{kp})))
+				k := new(big.Int).Div(proof.AResponses[j], order)
+				k.Add(k, bi(1))
+				t3 := cloneTree(tree).(T)
+				t3["a_responses"].(T)[strconv.Itoa(j)] = I(new(big.Int).Sub(proof.AResponses[j], new(big.Int).Mul(k, order)))
+				emit(verifyDOp(kp.id, t3, ctx, nonce, false, "nonrev-negative-response", "reject").with("sigviews", sigViews(t3, []*KeyPair{kp})).with("direct", true))
+			}
+			t2 := cloneTree(tree).(T)
+			t2["e_response"] = I(new(big.Int).Add(proof.EResponse, order))
+			emit(verifyDOp(kp.id, t2, ctx, nonce, false, "nonrev-shift-e-response", "reject").with("sigviews", sigViews(t2, []*KeyPair{kp})))
+		}
+	}
 }
 
 func (o Op) with(k string, v any) Op { o[k] = v; return o }
